@@ -24,7 +24,7 @@ def run_atheris(rep, modname, funcname, runs, shards=4, seeds=(), tag='fuzz', ma
     if not available():
         rep.excluded['atheris stage skipped: atheris not installed (run tools/setup.py)'] += 1
         return
-    base = os.path.join(WORK, rep.pid, tag)
+    base = os.path.join(WORK, rep.pid, '%s-%d' % (tag, os.getpid()))     # concurrent runs of one check do not share it
     shutil.rmtree(base, ignore_errors=True)
     procs = []
     for i in range(shards):
